@@ -97,3 +97,30 @@ func lemmaObligation(w *World, name string) ([]*Obligation, error) {
 	}()
 	return out, err
 }
+
+// runBoundedTest runs a bounded stand-in (an in-package Go test kept under /verif/bounded) against the tree under
+// check through an overlay. It returns "pass", "fail" (the test ran and failed: a concrete failing input is in the
+// output) or "error" (it could not be built or run), and the output.
+func runBoundedTest(file, pkgDir, run string, timeoutS int) (string, string) {
+	src := file
+	if !filepath.IsAbs(src) {
+		src = filepath.Join(verifDir, src)
+	}
+	target := filepath.Join(repoDir, pkgDir, "zz_verif_bounded_test.go")
+	ov := map[string]map[string]string{"Replace": {target: src}}
+	data, _ := json.Marshal(ov)
+	ovFile := filepath.Join(workDir, fmt.Sprintf("ovb_%s.json", sanitize(file)))
+	os.WriteFile(ovFile, data, 0o644)
+	defer os.Remove(ovFile)
+	cmd := exec.Command("go", "test", "-overlay", ovFile, "-vet=off", "-count=1", "-timeout", fmt.Sprintf("%ds", timeoutS), "-run", run, "./"+pkgDir)
+	cmd.Dir = repoDir
+	cmd.Env = append(os.Environ(), "GOFLAGS=-mod=mod", "GOPROXY=off", "GOSUMDB=off", "GOTOOLCHAIN=local")
+	out, err := cmd.CombinedOutput()
+	if err == nil {
+		return "pass", string(out)
+	}
+	if strings.Contains(string(out), "--- FAIL") || strings.Contains(string(out), "panic:") {
+		return "fail", string(out)
+	}
+	return "error", string(out)
+}
